@@ -1,5 +1,3 @@
-//go:build wip_c13
-
 package props
 
 import (
